@@ -11,7 +11,7 @@ import (
 	"github.com/rkosegi/yaml-toolkit/patch"
 )
 
-var c10Alphabet = []rune{'/', '~', '0', '1', 'a', 'é', '世', ' ', '\n', '\u3000'} // white space is a character like any other
+var c10Alphabet = []rune{'/', '~', '0', '1', 'a', 'é', '世', ' ', '\n', '\u3000', '\uFFFD', '😀'} // white space is a character like any other
 
 func c10Token(r *rand.Rand) string {
 	n := r.Intn(4)
